@@ -120,8 +120,9 @@ else:
     def _get_non_none_type(t: Any) -> Any:
         """Extract the non-None type from Optional[T]."""
         if _is_optional(t):
-            args = get_args(t)
-            return next(arg for arg in args if arg is not type(None))
+            non_none = tuple(arg for arg in get_args(t) if arg is not type(None))
+            # Optional[Union[int, str]] must stay a union, not collapse to its first member
+            return non_none[0] if len(non_none) == 1 else Union[non_none]
         return t
 
     def _resolve_type_alias(annotation, field_name=None, class_module=None):
@@ -264,6 +265,11 @@ else:
         if origin is Union:
             args = get_args(expected)
             non_none_args = [arg for arg in args if arg is not type(None)]
+
+            # Prefer the member whose type the value already has (as Pydantic's smart
+            # mode does), so that e.g. the string "123" stays a string for Union[int, str]
+            if type(value) in (str, int, float, bool) and type(value) in non_none_args:
+                return value
 
             # Try each type in the union
             validation_errors = []
